@@ -11,8 +11,9 @@ Model of `afm/read.go` (`afm.Read`), `afm/write.go` (`Metrics.Write`) and of the
 * `float64` fields are IEEE-754 bit patterns (`UInt64`, `PsVerif.Base.SoftFloat`), NaNs
   canonicalised to one quiet NaN.
 * `bufio.Scanner` line semantics: lines end at `\n`, one trailing `\r` is dropped, a final
-  line without `\n` counts, a line of more than 65535 bytes makes `Read` fail
-  (`bufio.ErrTooLong`).
+  line without `\n` counts.  `Read` calls `scanner.Buffer(nil, math.MaxInt)`, so there is no
+  limit on the length of a line (`bufio.ErrTooLong` would need a buffer of more than
+  `MaxInt/2` bytes, which no input that fits into memory reaches).
 * `strings.Fields` splits at the Unicode white space characters (UTF-8 decoded the way Go does:
   an invalid byte is one non-space rune).
 * `strconv.Atoi`: optional sign, decimal digits, value in the int64 range – modelled exactly.
@@ -21,7 +22,18 @@ Model of `afm/read.go` (`afm.Read`), `afm/write.go` (`Metrics.Write`) and of the
   an underscore or starts (after the sign) with `0x`/`0X` followed by at least one more byte
   gives the distinguished outcome `unsupported`.
 * `fmt` `%.0f`: exact value rounded to an integer, ties to even, sign kept (`-0`);
-  `strconv.FormatFloat(x, 'f', -1, 64)`: shortest digit string that parses back to `x`.
+  `strconv.FormatFloat(x, 'f', -1, 64)`: shortest digit string that parses back to `x`
+  (searched among the two neighbours with 1 … 17 digits, nearest first, each checked with the
+  model's own `parseFloat`).
+* `Write`: the glyph lines come in the order of `Metrics.GlyphList` (`Query.glyphList`: `.notdef`,
+  then by the highest code, then by name); a glyph's code is the first index of its name in the
+  encoding; ligatures are written in key order (the stored order of the sorted list); `Version`
+  and `Notice` only when not empty; `FamilyName`/`Weight` from `strings.Split(FullName, " ")`.
+  `FontBBox` needs the union of the glyph boxes in Go's random map order and `int(x)`:
+  `writeSupported` says whether the printed text is determined (no NaN box, no partial union that
+  is the zero box again, values finite and inside int64); the driver answers `unsupported`
+  otherwise.  `write` itself is total.
+* `read = readCore`.
 -/
 namespace PsVerif.Model.AFM
 open PsVerif.Base
@@ -102,10 +114,6 @@ def dropCR : Bytes → Bytes
   | [] => []
   | [b] => if b = 13 then [] else [b]
   | b :: c :: bs => b :: dropCR (c :: bs)
-
-/-- `bufio.MaxScanTokenSize`: a line (with its `\r`, without its `\n`) of this many bytes or
-more cannot be delivered -/
-def maxLine : Nat := 65536
 
 /-! ## `strings.Fields`, `strings.Split`, `strings.Join` -/
 
@@ -551,15 +559,12 @@ def readLines : St → List Bytes → Res St
 /-- the lines the scanner delivers -/
 def scanLines (t : Bytes) : List Bytes := (splitLines t).map dropCR
 
-/-- `Read` without the scanner's limit on the length of a line -/
+/-- the scanner loop of `Read` and its result -/
 def readCore (t : Bytes) : Res Metrics :=
   (readLines { m := emptyMetrics } (scanLines t)).bind fun st => .ok st.m
 
-def hasLongLine (t : Bytes) : Bool := (splitLines t).any (fun l => l.length ≥ maxLine)
-
-/-- `afm.Read` -/
-def read (t : Bytes) : Res Metrics :=
-  if hasLongLine t then .error else readCore t
+/-- `afm.Read` (the scanner has no limit on the length of a line) -/
+def read (t : Bytes) : Res Metrics := readCore t
 
 /-! ## `Metrics.Write` -/
 
